@@ -62,5 +62,5 @@ Lemma contains_unknowns_exact c : cdepth c < big_fuel ->
   exists v, export big_fuel c = Some v /\ contains_unknowns c = x_has_unknown v /\ contains_secrets c = x_has_secret v.
 Proof.
   intro H. destruct (export_big_fuel_some c H) as [v Hv]. exists v. unfold contains_unknowns, contains_secrets.
-  rewrite Hv. auto.
+  rewrite (export_t_big _ _ Hv). auto.
 Qed.
